@@ -216,8 +216,6 @@ def loop_spec(invariant, havoc):
             for n in _ast.walk(b):
                 if isinstance(n, _ast.Attribute) and isinstance(n.ctx, _ast.Store):
                     raise Undecided(f"loop contract of {clo.qualname}: loop stores to attribute {_ast.unparse(n)}")
-                if isinstance(n, _ast.Break):
-                    raise Undecided(f"loop contract of {clo.qualname}: loop contains {type(n).__name__}")
         for k, f in enumerate(invariant(it, env)):
             it.oblige(f"loop-invariant.entry.{k}", f, kind="inv")
         for name, fac in havoc.items():
@@ -227,7 +225,13 @@ def loop_spec(invariant, havoc):
         if it.decide_free():
             if not it.truth(it.eval(st.test, env)):
                 raise PathEnd()
-            it.exec_block(st.body, env, clo)
+            from .interp import _Break
+            try:
+                it.exec_block(st.body, env, clo)
+            except _Break:
+                # an arbitrary iteration leaves the loop: execution continues after it with the state reached here
+                it.event(kind="loop-exit", where=clo.qualname, via="break")
+                return
             for k, f in enumerate(invariant(it, env)):
                 it.oblige(f"loop-invariant.preserved.{k}", f, kind="inv")
             raise PathEnd()
